@@ -8,7 +8,7 @@ from hypothesis import strategies as st
 from vlib import core
 from vlib import ttlvref as T
 from vlib import c19_wire as W
-from vlib.c19_ops import OPS, plain, uid_s, text_s, bytes_s, nbytes_s, opt
+from vlib.c19_ops import OPS, text_s, bytes_s, nbytes_s, opt
 from vlib import c19_exec as X
 
 REF = st.one_of(st.integers(0, 7).map(lambda i: "$%d" % i), st.just("424242"))
